@@ -276,8 +276,8 @@ def build_tape(spec):
     import pennylane as qp
 
     shots = spec.get("shots")
-    if isinstance(shots, list):
-        shots = tuple(shots)
+    if isinstance(shots, list):  # ints and [shots, copies] pairs
+        shots = tuple(tuple(x) if isinstance(x, list) else x for x in shots)
     tape = qp.tape.QuantumScript(build_ops(spec["ops"]), [build_mp(m) for m in spec["mps"]],
                                  shots=shots)
     if spec.get("trainable") is not None:
